@@ -112,6 +112,16 @@ func builtinDateSetTime(call FunctionCall) Value {
 	return date.Value()
 }
 
+// builtinDateReviveNaN lets setFullYear and setUTCFullYear start from the time
+// value +0 when the date is invalid (15.9.5.40 and 15.9.5.41 step 1).
+func builtinDateReviveNaN(call FunctionCall) {
+	obj := call.thisObject()
+	if date := dateObjectOf(call.runtime, obj); date.isNaN {
+		date.Set(0)
+		obj.value = date
+	}
+}
+
 func builtinDateBeforeSet(call FunctionCall, argumentLimit int, timeLocal bool) (*object, *dateObject, *ecmaTime, []int) {
 	obj := call.thisObject()
 	date := dateObjectOf(call.runtime, call.thisObject())
@@ -576,6 +586,7 @@ func builtinDateSetYear(call FunctionCall) Value {
 }
 
 func builtinDateSetFullYear(call FunctionCall) Value {
+	builtinDateReviveNaN(call)
 	obj, date, ecmaTime, value := builtinDateBeforeSet(call, 3, true)
 	if ecmaTime == nil {
 		return NaNValue()
@@ -595,6 +606,7 @@ func builtinDateSetFullYear(call FunctionCall) Value {
 }
 
 func builtinDateSetUTCFullYear(call FunctionCall) Value {
+	builtinDateReviveNaN(call)
 	obj, date, ecmaTime, value := builtinDateBeforeSet(call, 3, false)
 	if ecmaTime == nil {
 		return NaNValue()
